@@ -371,7 +371,8 @@ def ptr3(cfg):
 
             def is_field(o, name):
                 e = f.strip_casts(o)
-                while isinstance(e, dict) and e.get('k') == 'call' and e.get('ck') == 'ctor' and (e.get('copy') or e.get('move')) and e.get('args'):
+                # through copies and through the construction of a wrapper from the stored value (qsbr_ptr<T>{start})
+                while isinstance(e, dict) and e.get('k') == 'call' and e.get('ck') == 'ctor' and len(e.get('args', [])) == 1:
                     e = f.strip_casts(e['args'][0])
                 return isinstance(e, dict) and e.get('k') == 'member' and e.get('name') == name and isinstance(f.resolve(e['base']), dict) and f.resolve(e['base']).get('k') == 'this'
             ok = False
@@ -386,12 +387,30 @@ def ptr3(cfg):
                     y = f.strip_casts(y['args'][0])
                 if isinstance(y, dict) and y.get('k') == 'binop' and y.get('op') == '+':
                     l = f.strip_casts(y['l'])
-                    okl = isinstance(l, dict) and l.get('k') == 'call' and l.get('name') == 'get' and is_field(l['obj'], 'start')
+                    okl = (isinstance(l, dict) and l.get('k') == 'call' and l.get('name') == 'get' and is_field(l['obj'], 'start')) or is_field(y['l'], 'start')
                     ok = okl and is_field(y['r'], 'length')
             res.ob(ok, {'rule': 'PTR-3', 'function': sh(f.sig)[:120], 'verdict': 'discharged' if ok else 'VIOLATION'})
             if not ok:
                 res.find(f, f.loc, 'qsbr_ptr_span::%s() does not return %s' % (f.short, {'begin': 'the stored start', 'size': 'the stored length', 'end': 'start + length'}[f.short]), key='span:' + f.short, config=cfg.name)
     res.floor('span members', 4)
+    return res
+
+
+def ptr6(cfg):
+    """PTR-6: the span is itself a tracked wrapper"""
+    res = RuleResult('PTR-6', 'qsbr_ptr_span keeps its start in a qsbr_ptr (a tracked wrapper), not in a raw pointer: a non-empty span that is alive with no iterator in scope - the result of olc_db::get - is registered in the per-thread registry like any other wrapper, so quiescent states / pauses are rejected while it lives')
+    n = 0
+    for nme, r in cfg.records.items():
+        if not nme.startswith('unodb::qsbr_ptr_span<'):
+            continue
+        n += 1
+        flds = [fl for fl in r.get('fields', []) if fl.get('name') == 'start']
+        ok = len(flds) == 1 and (flds[0].get('t') or '').replace('const ', '').startswith('unodb::qsbr_ptr<')
+        res.ob(ok, {'rule': 'PTR-6', 'record': sh(nme)[:80], 'start_field_type': sh((flds[0].get('t') if flds else '?') or '?')[:60], 'verdict': 'discharged' if ok else 'VIOLATION'})
+        if not ok:
+            res.find(nme, r.get('loc'), 'qsbr_ptr_span stores its start as `%s`, not as a qsbr_ptr: the span itself is not registered as a live wrapper - a thread holding only the span (the value returned by get) may pass a quiescent state or pause, and the bytes it still reads are freed' % ((flds[0].get('t') if flds else 'nothing') or '?'), key='PTR-6:span-start', config=cfg.name)
+    res.count('span instantiations', n)
+    res.floor('span instantiations', 1)
     return res
 
 
